@@ -74,7 +74,15 @@ def run(mod, tier, seed, replay=None):
                 rp = json.load(open(replay))
                 cases = [rp["ops"]] if "ops" in rp else []
             else:
-                cases = core.load_corpus(mod.ID) + mod.gen_cases(rng, tier, h)
+                try:
+                    cases = core.load_corpus(mod.ID) + mod.gen_cases(rng, tier, h)
+                except Exception as ex:
+                    if not regen_fail:
+                        raise
+                    # the model could not be regenerated from this tree (already a broken tie): the generator has no
+                    # signatures to draw from; the search for a failing input is limited to the corpus
+                    rep.notes.append("case generation skipped after failed regeneration: %r" % (ex,))
+                    cases = core.load_corpus(mod.ID)
             t1 = time.time()
             fails = pair.compare(cases)
             evaluations += len(cases)
